@@ -1,82 +1,149 @@
 """C03, part 2: FileSet.match on harness-built filesets (driven from
-c03_intervals.py)."""
+c03_intervals.py).
+
+Two families of shards:
+ match    pairs of populations of two 7-file pools x periods x max_interval
+ filters  pairs of populations of two 4-file pools that hold one period under
+          three satellite names x filters x other_filters
+"""
 import datetime as dt
 import itertools
 import os
 
+import numpy as np
+import pandas as pd
+
 from mc import driver, fsbuild
 
 T0 = dt.datetime(2020, 2, 29, 0, 0, 0)
-H = dt.timedelta(hours=1)
 TEMPLATE = ("{year}{month}{day}_{hour}{minute}{second}-"
             "{end_year}{end_month}{end_day}_{end_hour}{end_minute}"
             "{end_second}.dat")
+SAT_TEMPLATE = "{sat}_" + TEMPLATE
 
-# (start hour, end hour) relative to T0
+# (start hour, end hour[, satellite]) relative to T0
 POOL_A = [(0, 2), (2, 4), (3, 6), (0, 8), (5, 5), (7, 8), (30, 31)]
 POOL_B = [(0, 1), (1, 3), (4, 4), (2, 7), (0, 8), (6, 8), (-40, -39)]
+SAT_POOL_A = [(0, 2, "A"), (0, 2, "B"), (0, 2, "C"), (3, 6, "A")]
+SAT_POOL_B = [(1, 3, "A"), (1, 3, "B"), (1, 3, "C"), (5, 7, "B")]
+
+# None = that side of the period is not given to match()
 PERIODS = [(None, None), (0, 8), (0, 9), (-2, 0), (2, 3), (4, 4.5), (6, 7),
            (8, 12), (9, 12), (-48, 48)]
+HALF_OPEN = [(None, 4), (4, None)]
+# label (what a recorded case holds) -> (max_interval argument, seconds);
 # incl. intervals of a day and more (timedelta.seconds vs total_seconds)
-MAX_INTERVALS = [None, 0, 3600, "90 min", "1 day", 90000, "49 h"]
-MI_SECONDS = {None: 0, 0: 0, 3600: 3600, "90 min": 5400, "1 day": 86400,
-              90000: 90000, "49 h": 176400}
+MAX_INTERVALS = {
+    None: (None, 0), 0: (0, 0), 3600: (3600, 3600), "90 min": ("90 min", 5400),
+    "1 day": ("1 day", 86400), 90000: (90000, 90000),
+    "49 h": ("49 h", 176400),
+}
+# the other types to_timedelta accepts, and numbers that are no whole seconds
+SPELLINGS = {
+    "timedelta(minutes=90)": (dt.timedelta(minutes=90), 5400),
+    "numpy.timedelta64(1,'h')": (np.timedelta64(1, "h"), 3600),
+    "pandas.Timedelta('1 day')": (pd.Timedelta("1 day"), 86400),
+    0.5: (0.5, 0.5), 3600.5: (3600.5, 3600.5),
+}
+ALL_INTERVALS = {**MAX_INTERVALS, **SPELLINGS}
+
+# filter argument as recorded in a case: None or [key, value]
+FILTERS = [None, ["sat", "A"], ["!sat", "A"]]
+OTHER_FILTERS = [None, ["sat", "B"], ["!sat", "B"]]
+FILTER_PERIODS = [(None, None), (0, 8), (2, 3)]
+FILTER_INTERVALS = [None, 3600]
 
 
-def populations(pool, maxsize):
-    for n in range(1, maxsize + 1):
+def populations(pool, maxsize, minsize=1):
+    for n in range(minsize, maxsize + 1):
         for idx in itertools.combinations(range(len(pool)), n):
             yield idx
 
 
+def filter_populations(pool, tier):
+    return populations(pool, len(pool), 1 if tier == "thorough" else 3)
+
+
+def pair_populations(pool, tier):
+    return populations(pool, 3 if tier == "thorough" else 2)
+
+
 def shards(tier, seed):
-    maxsize = 2 if tier == "quick" else 3
-    return [("match", idx, maxsize) for idx in populations(POOL_A, maxsize)]
+    return [("match", idx, tier) for idx in pair_populations(POOL_A, tier)] \
+        + [("filters", idx, tier) for idx in filter_populations(SAT_POOL_A,
+                                                                 tier)]
+
+
+def options(shard, idx_b):
+    """(period, max_interval label, filters, other_filters) of one pair of
+    populations."""
+    if shard[0] == "filters":
+        return itertools.product(FILTER_PERIODS, FILTER_INTERVALS, FILTERS,
+                                 OTHER_FILTERS)
+    out = list(itertools.product(PERIODS, MAX_INTERVALS, [None], [None]))
+    # the further periods and spellings for the smaller pairs only
+    if len(shard[1]) + len(idx_b) <= (4 if shard[2] == "thorough" else 2):
+        out += itertools.product(HALF_OPEN, ALL_INTERVALS, [None], [None])
+        out += itertools.product(PERIODS, SPELLINGS, [None], [None])
+    return out
 
 
 def hours(h):
     return T0 + dt.timedelta(seconds=int(h * 3600))
 
 
-def expected(files_a, files_b, period, mi):
+def passes(f, spec):
+    if spec is None:
+        return True
+    key, value = spec
+    if key.startswith("!"):
+        return f.attrs[key[1:]] != value
+    return f.attrs[key] == value
+
+
+def expected(files_a, files_b, period, mi, filters=None, other_filters=None):
     """-> (list of (a_index, must, may)) in required primary order;
     must = secondaries that have to be reported, may = further secondaries
-    that may be reported (outside the searched period; statement silent)."""
+    that may be reported (outside the searched period; statement silent).
+    Files that do not pass their filter take no part."""
     s, e = period
-    mis = MI_SECONDS[mi]
-    d = dt.timedelta(seconds=mis)
-    if s is None:
-        def found(f):
-            return True
-    else:
-        s2, e2 = hours(s) - d, hours(e) + d
+    d = dt.timedelta(seconds=ALL_INTERVALS[mi][1])
 
-        def found(f):
-            return f.t0 < e2 and f.t1 >= s2
+    def found(f):
+        return (s is None or f.t1 >= hours(s) - d) \
+            and (e is None or f.t0 < hours(e) + d)
     out = []
     for i, a in enumerate(files_a):
-        if not found(a):
+        if not found(a) or not passes(a, filters):
             continue
         must, may = [], []
         for j, b in enumerate(files_b):
-            if b.t0 - d <= a.t1 and b.t1 + d >= a.t0:
+            if passes(b, other_filters) \
+                    and b.t0 - d <= a.t1 and b.t1 + d >= a.t0:
                 (must if found(b) else may).append(j)
         if must or may:
             out.append((i, must, may))
     return out
 
 
-def run_match(dir_a, dir_b, period, mi):
+def run_match(dir_a, dir_b, template, period, mi, filters=None,
+              other_filters=None):
     from typhon.files import FileSet
-    a = FileSet(os.path.join(dir_a, TEMPLATE), name="A")
-    b = FileSet(os.path.join(dir_b, TEMPLATE), name="B")
     s, e = period
     kwargs = {}
     if s is not None:
-        kwargs = dict(start=hours(s), end=hours(e))
+        kwargs["start"] = hours(s)
+    if e is not None:
+        kwargs["end"] = hours(e)
     if mi is not None:
-        kwargs["max_interval"] = mi
+        kwargs["max_interval"] = ALL_INTERVALS[mi][0]
+    if filters is not None:
+        kwargs["filters"] = dict([filters])
+    if other_filters is not None:
+        kwargs["other_filters"] = dict([other_filters])
     try:
+        a = FileSet(os.path.join(dir_a, template), name="A")
+        b = FileSet(os.path.join(dir_b, template), name="B")
         res = list(a.match(b, **kwargs))
     except Exception as exc:
         if type(exc).__name__ == "NoFilesError":
@@ -85,15 +152,20 @@ def run_match(dir_a, dir_b, period, mi):
     return [(p.path, [x.path for x in secs]) for p, secs in res]
 
 
-def judge(files_a, files_b, period, mi, got):
-    """None or (key, expected, observed, msg)."""
-    exp = expected(files_a, files_b, period, mi)
+def judge(files_a, files_b, case, got, about=""):
+    """None or (key, expected, observed, msg); `about` is appended to the key
+    of an exception."""
+    period, mi = tuple(case["period"]), case["max_interval"]
+    filters, other_filters = case.get("filters"), case.get("other_filters")
+    exp = expected(files_a, files_b, period, mi, filters, other_filters)
     if isinstance(got, Exception):
-        return ("match/exception/" + type(got).__name__,
+        return ("match/exception/%s%s" % (type(got).__name__, about),
                 [(files_a[i].rel, [files_b[j].rel for j in m])
                  for i, m, _ in exp], repr(got)[:200], "")
     pa = {f.path: k for k, f in enumerate(files_a)}
     pb = {f.path: k for k, f in enumerate(files_b)}
+    if any(p not in pa or set(secs) - set(pb) for p, secs in got):
+        return ("match/file-of-neither-population", None, got, "")
     got_idx = [(pa[p], [pb[x] for x in secs]) for p, secs in got]
     exp_desc = [(i, m, y) for i, m, y in exp]
     # primaries: exactly those with a must-partner, those with only
@@ -104,6 +176,12 @@ def judge(files_a, files_b, period, mi, got):
         if i in seen:
             return ("match/primary-duplicated", exp_desc, got_idx, "")
         seen.append(i)
+        if not passes(files_a[i], filters):
+            return ("match/primary-excluded-by-filters", exp_desc, got_idx,
+                    "")
+        if any(not passes(files_b[j], other_filters) for j in secs):
+            return ("match/secondary-excluded-by-other_filters", exp_desc,
+                    got_idx, "")
         if i not in need:
             return ("match/primary-without-partner-or-outside-period",
                     exp_desc, got_idx, "")
@@ -126,57 +204,83 @@ def judge(files_a, files_b, period, mi, got):
     return None
 
 
-def build(base, pool, idx):
-    return fsbuild.populate(
-        base, TEMPLATE, [(hours(pool[k][0]), hours(pool[k][1]), None)
-                         for k in idx])
+def family(name):
+    """-> (path template, pool of the primary, pool of the secondary)"""
+    if name == "filters":
+        return SAT_TEMPLATE, SAT_POOL_A, SAT_POOL_B
+    return TEMPLATE, POOL_A, POOL_B
+
+
+def build(base, template, pool, idx):
+    return fsbuild.populate(base, template, [
+        (hours(pool[k][0]), hours(pool[k][1]),
+         dict(sat=pool[k][2]) if len(pool[k]) > 2 else None) for k in idx])
+
+
+def evaluate(dirs, files, case):
+    template = family(case["part"])[0]
+
+    def run(period):
+        return run_match(dirs[0], dirs[1], template, period,
+                         case["max_interval"], case.get("filters"),
+                         case.get("other_filters"))
+    period, mi = tuple(case["period"]), case["max_interval"]
+    got = run(period)
+    # one key per class of input typhon does not cope with: an open period
+    # with max_interval, unless the type of max_interval alone gives the same
+    # exception under a closed period
+    about = ""
+    if isinstance(got, Exception):
+        if None in period and mi is not None:
+            about = "[open period with max_interval]"
+        if isinstance(ALL_INTERVALS[mi][0], (dt.timedelta, np.timedelta64)) \
+                and (not about or type(run(PERIODS[-1])) is type(got)):
+            about = "[max_interval=%s]" % mi.split("(")[0]
+    return got, judge(files[0], files[1], case, got, about)
 
 
 def run_shard(shard):
-    _, idx_a, maxsize = shard
+    name, idx_a = shard[:2]
+    template, pool_a, pool_b = family(name)
     res = driver.ShardResult()
     root = driver.fresh_dir("c03m")
     dir_a = os.path.join(root, "A")
-    files_a = build(dir_a, POOL_A, idx_a)
-    last = None
-    for idx_b in populations(POOL_B, maxsize):
+    files_a = build(dir_a, template, pool_a, idx_a)
+    pops_b = (filter_populations if name == "filters"
+              else pair_populations)(pool_b, shard[2])
+    case = None
+    for idx_b in pops_b:
         dir_b = os.path.join(root, "B" + "".join(map(str, idx_b)))
-        files_b = build(dir_b, POOL_B, idx_b)
-        for period in PERIODS:
-            for mi in MAX_INTERVALS:
-                if period[0] is None and mi is not None:
-                    continue
-                exp = expected(files_a, files_b, period, mi)
-                res.case(nontrivial=any(m for _, m, _ in exp))
-                got = run_match(dir_a, dir_b, period, mi)
-                bad = judge(files_a, files_b, period, mi, got)
-                last = (idx_b, period, mi)
-                if bad is not None:
-                    again = judge(files_a, files_b, period, mi,
-                                  run_match(dir_a, dir_b, period, mi))
-                    if again is None or again[0] != bad[0]:
-                        res.error("NONDETERMINISM match %r" % (last,))
-                    res.violation(
-                        bad[0], dict(part="match", a=idx_a, b=idx_b,
-                                     period=period, max_interval=mi),
-                        bad[1], bad[2], bad[3])
-    res.sample(dict(part="match", a=[POOL_A[k] for k in idx_a],
-                    b=[POOL_B[k] for k in last[0]], period=last[1],
-                    max_interval=last[2]))
+        files_b = build(dir_b, template, pool_b, idx_b)
+        for period, mi, filters, other_filters in options(shard, idx_b):
+            case = dict(part=name, a=idx_a, b=idx_b, period=period,
+                        max_interval=mi)
+            if name == "filters":
+                case.update(filters=filters, other_filters=other_filters)
+            exp = expected(files_a, files_b, period, mi, filters,
+                           other_filters)
+            res.case(nontrivial=any(m for _, m, _ in exp))
+            res.count(name + "_cases")
+            bad = evaluate((dir_a, dir_b), (files_a, files_b), case)[1]
+            if bad is not None:
+                again = evaluate((dir_a, dir_b), (files_a, files_b), case)[1]
+                if again is None or again[0] != bad[0]:
+                    res.error("NONDETERMINISM match %r" % (case,))
+                res.violation(bad[0], case, bad[1], bad[2], bad[3])
+    res.sample(dict(case, a=[pool_a[k] for k in case["a"]],
+                    b=[pool_b[k] for k in case["b"]]))
     return res
 
 
 def replay(case):
+    template, pool_a, pool_b = family(case["part"])
     root = driver.fresh_dir("c03r")
-    dir_a, dir_b = os.path.join(root, "A"), os.path.join(root, "B")
-    files_a = build(dir_a, POOL_A, case["a"])
-    files_b = build(dir_b, POOL_B, case["b"])
-    period = tuple(case["period"])
-    mi = case["max_interval"]
-    got = run_match(dir_a, dir_b, period, mi)
-    bad = judge(files_a, files_b, period, mi, got)
+    dirs = os.path.join(root, "A"), os.path.join(root, "B")
+    files = (build(dirs[0], template, pool_a, case["a"]),
+             build(dirs[1], template, pool_b, case["b"]))
+    got, bad = evaluate(dirs, files, case)
     if bad is None:
         return dict(ok=True, observed=got)
     return dict(ok=False, key=bad[0], expected=bad[1], observed=bad[2],
-                files_a=[f.rel for f in files_a],
-                files_b=[f.rel for f in files_b])
+                files_a=[f.rel for f in files[0]],
+                files_b=[f.rel for f in files[1]])
